@@ -72,52 +72,52 @@ def showON : Option Nat → String
 def showIdx (l : List Nat) : String := if l.isEmpty then "-" else ".".intercalate (l.map toString)
 
 
-def parseArg : String → Option Arg
+def opParseArg : String → Option Arg
   | "path" => some .path | "fileobj" => some .fileobj | _ => none
-def parseKind : String → Option PathKind
+def opParseKind : String → Option PathKind
   | "missing" => some .missing | "file" => some .file | "dir" => some .dir | "special" => some .special | _ => none
-def parseName : String → Option NameKind
+def opParseName : String → Option NameKind
   | "plain" => some .plain | "xmlExt" => some .xmlExt | "productXml" => some .productXml | "manifestSafe" => some .manifestSafe | _ => none
-def parseHead : String → Option VHead
+def opParseHead : String → Option VHead
   | "plain" => some .plain | "binary" => some .binary | "hdf5" => some .hdf5 | "gff" => some .gff | "tiffShort" => some .tiffShort
   | "tiffBad" => some .tiffBad | "tiff42" => some .tiff42 | "tiff43" => some .tiff43 | _ => none
-def parseProbe : String → Option Probe
+def opParseProbe : String → Option Probe
   | "none" => some .none | "declOpen" => some .declOpen | "level1" => some .level1 | _ => none
-def parseBit : String → Option Bool
+def opParseBit : String → Option Bool
   | "0" => some false | "1" => some true | _ => none
 
-def allVendors : List (String × Vendor) :=
+def opAllVendors : List (String × Vendor) :=
   [("capella", .capella), ("csk", .csk), ("gff", .gff), ("iceye", .iceye), ("nisar", .nisar), ("palsar2", .palsar2),
    ("radarsat", .radarsat), ("sentinel", .sentinel), ("sicd", .sicd), ("sio", .sio), ("tsx", .tsx), ("final", .finalAttempt),
    ("sidd", .sidd), ("cphd", .cphd), ("crsd", .crsd), ("nitf", .nitf), ("tiff", .tiff)]
 
 /-- a decision that may depend on the opaque remainders: evaluated under three different remainders -/
-def showOpaque (f : (Vendor → Decision) → Decision) : String :=
+def opShowOpaque (f : (Vendor → Decision) → Decision) : String :=
   let a := f (fun _ => .reject)
   let b := f (fun _ => .raises)
   let c := f (fun _ => .accept .nitf)
   if a == b && b == c then showDecision a else "D"
 
-def vendorStep (toks : List String) : Option String :=
+def openerVendor (toks : List String) : Option String :=
   match toks with
   | [pol, ar, ki, na, l4, hd, bg, xm, pr, pn, dp, dm, dx, h5, m, im, g, ds, sy, la] => do
     let bits := pol.toList.map (· == '1')
     let b := fun (i : Nat) => bits.getD i false
     let p : Policy2 := { siddRefusesGraphics := b 0, nitf20SkipsSymLab := b 1, nitf20SarRaises := b 2, guards := ⟨b 3, b 4, b 5, b 6⟩ }
-    let w : World := { arg := ← parseArg ar, kind := ← parseKind ki, name := ← parseName na, len4 := ← parseBit l4, head := ← parseHead hd,
-                       big := ← parseBit bg, xmlParses := ← parseBit xm, probe := ← parseProbe pr, palsarNamed := ← parseBit pn,
-                       dirProduct := ← parseBit dp, dirManifest := ← parseBit dm, dirXml := ← parseProbe dx, h5py := ← parseBit h5 }
+    let w : World := { arg := ← opParseArg ar, kind := ← opParseKind ki, name := ← opParseName na, len4 := ← opParseBit l4, head := ← opParseHead hd,
+                       big := ← opParseBit bg, xmlParses := ← opParseBit xm, probe := ← opParseProbe pr, palsarNamed := ← opParseBit pn,
+                       dirProduct := ← opParseBit dp, dirManifest := ← opParseBit dm, dirXml := ← opParseProbe dx, h5py := ← opParseBit h5 }
     let d : Desc := { magic := ← parseMagic m, images := ← parseListTok parseImg im, graphics := ← g.toNat?,
                       des := ← parseListTok parseDes ds, symbols := ← sy.toNat?, labels := ← la.toNat? }
-    let vs := allVendors.map (fun (n, v) => n ++ "=" ++ showOpaque (fun deep => isAV p w d deep v))
+    let vs := opAllVendors.map (fun (n, v) => n ++ "=" ++ opShowOpaque (fun deep => isAV p w d deep v))
     let es := [("cx", Entry.complex), ("pr", .product), ("ph", .phaseHistory), ("rc", .received), ("ge", .general)].map
-      (fun (n, e) => n ++ "=" ++ showOpaque (fun deep => openEntryV p w d deep e))
-    pure (" ".intercalate (vs ++ es ++ ["op=" ++ showOpaque (fun deep => openTopV p w d deep)]))
+      (fun (n, e) => n ++ "=" ++ opShowOpaque (fun deep => openEntryV p w d deep e))
+    pure (" ".intercalate (vs ++ es ++ ["op=" ++ opShowOpaque (fun deep => openTopV p w d deep)]))
   | _ => none
 
 def openerStep (toks : List String) : Option String :=
   match toks with
-  | "vendor" :: rest => vendorStep rest
+  | "vendor" :: rest => openerVendor rest
   | ["eval", rg, m, im, g, ds] => do
     let p : Policy := { siddRefusesGraphics := (← rg.toNat?) != 0 }
     let d : Desc := { magic := ← parseMagic m, images := ← parseListTok parseImg im, graphics := ← g.toNat?,
